@@ -588,6 +588,8 @@ def run(ctx):
                 'n': 40 if ctx.tier == 'quick' else 2000} for i in range(4)]
     results = common.run_shards('checks.c16', shards, timeout=3000)
     common.merge_shards(ctx, results)
+    if ctx.counters.get('commented_variants', 0) == 0:
+        ctx.inconclusive_because('no variant with a comment inside a term')
     # real-run part: the sorts answered during a real run must not depend
     # on inputs the process analysed earlier
     from checks import c17_real
